@@ -217,8 +217,62 @@ def c20():
     return out
 
 
+def c04():
+    """prescribed rate histories through the real optimize() loop (a scripted optimizer sets the fitness of each generation):
+    the run must stop at the first cycle where the Stop predicate of the statement holds"""
+    import itertools as it
+    from pyvolutionary.abstract import OptimizationAbstract
+    from pyvolutionary.models import BaseOptimizationConfig, Agent, Task, ContinuousMultiVariable, EarlyStopping
+    from .bnd import stop_spec
+    import io, contextlib
+
+    class Hist(OptimizationAbstract):
+        def set_config_parameters(self, parameters):
+            self._config = BaseOptimizationConfig(**parameters)
+
+        def _gen(self, k):
+            r = self._task.data["rates"][min(k, len(self._task.data["rates"]) - 1)]
+            return [Agent(position=[0.5], cost=float(j), fitness=1.0 - r) for j in range(2)]
+
+        def _init_population(self):
+            self._population = self._gen(0)
+
+        def optimization_step(self):
+            self._population = self._gen(self._current_cycle)
+
+    class HT(Task):
+        def objective_function(self, x):
+            return 0.0
+    out = []
+    vals = [0.0, 0.05, 0.3, 0.31, 0.6]
+    cfgs = []
+    for mc in (1, 3, 5):
+        for fe in (None, 0.0, 0.3):
+            for es in (None, (1, 0.1), (2, 0.05), (2, 1.0), (3, 1.0)):
+                cfgs.append((mc, fe, es))
+    hists = list(it.product(vals, repeat=4))[::3] + [(0.6, 0.5, 0.45, 0.42, 0.41, 0.405), (0.3, 0.3, 0.3, 0.3), (0.0, 0.0, 0.0, 0.0),
+                                                     (0.31, 0.3, 0.29, 0.0), (0.6, 0.59, 0.58, 0.57, 0.56)]
+    sink = io.StringIO()
+    for mc, fe, es in cfgs:
+        for h in hists:
+            rates = (0.9,) + tuple(h)           # rate of the initial generation is not part of the rule
+            cfg = BaseOptimizationConfig(population_size=2, max_cycles=mc, fitness_error=fe,
+                                         early_stopping=EarlyStopping(patience=es[0], min_delta=es[1]) if es else None)
+            t = HT(variables=[ContinuousMultiVariable(name="x", lower_bounds=[0.0], upper_bounds=[1.0])], data={"rates": list(rates)})
+            with contextlib.redirect_stdout(sink):
+                res = Hist(cfg).optimize(t)
+            K = len(res.rates)
+            exp_rates = [abs(1 - (1.0 - rates[min(k, len(rates) - 1)])) for k in range(1, K + 1)]
+            desc = f"max_cycles={mc} fitness_error={fe} early_stopping={es} rates={list(h)}"
+            ok = len(res.evolution) == K + 1 and 1 <= K <= mc and all(abs(a - b) < 1e-12 for a, b in zip(res.rates, exp_rates))
+            if ok:
+                ok = stop_spec(cfg, K, res.rates) and not any(stop_spec(cfg, k, res.rates[:k]) for k in range(1, K))
+            out.append(("C04", desc, ok, f"ran {K} cycles, rates {res.rates}"))
+    return out
+
+
 def run(pid):
-    return c19() if pid == "C19" else c20()
+    return {"C19": c19, "C20": c20, "C04": c04}[pid]()
 
 
 if __name__ == "__main__":
